@@ -82,7 +82,7 @@ def compare_case(case, obs, k, fnd, stats, rep):
             if unconstrained or alpha_rejects:
                 stats["unconstrained_rejected"] += 1
             else:
-                fnd.add("delta-rejects-valid", "%s %s" % (d.get("codes"), gc.canon(case)),
+                fnd.add("delta-rejects-valid", "%s %s" % (d.get("codes"), gc.rejection_shape(gc.canon(case)) or gc.canon(case)),
                         example(case, j, d, None, "a syntactically valid module is rejected by the second-generation %s" % d.get("stage")))
         else:
             for issue in d.get("wf", []):
@@ -151,25 +151,27 @@ def run(rep, tier, seed, selftest):
     os.makedirs(common.WORK, exist_ok=True)
     k = LAYOUTS[tier]
     d = gc.derive(tier)
-    cases = d["cases"]
+    total = d["count"]
     missing = gc.production_coverage(d["coverage"])
     if missing:
         raise common.ToolError("vacuity: productions never applied by any focus: %s" % missing)
     fnd = Findings()
     stats = {key: 0 for key in ("evaluations", "alpha_rejects", "delta_panics", "unconstrained_rejected", "delta_tree_equal",
                                 "three_way_equal", "corpus_equal", "corpus_alpha_rejects", "corpus_files", "corpus_both_accept")}
-    # ---- 1. spec -> impl: every derived module, k layouts, both parsers -----------------------------------
-    cases_path = os.path.join(common.WORK, "C16-cases.ndjson")
+    # ---- 1. spec -> impl: every derived module, k layouts, both parsers (streamed) ---------------------------
     obs_path = os.path.join(common.WORK, "C16-obs.ndjson")
-    common.write_ndjson(cases_path, [{"id": c["id"], "toks": c["toks"]} for c in cases])
-    common.pvh(["replay", cases_path, obs_path, k, seed], exe_name=gc.EXE)
+    common.pvh(["replay", d["cases_path"], obs_path, k, seed], exe_name=gc.EXE, env=gc.PVH_ENV)
     nontriv = 0
     samples = []
     rnd = random.Random(seed)
-    sample_ids = set(rnd.sample(range(len(cases)), min(4, len(cases))))
+    sample_ids = set(rnd.sample(range(total), min(4, total)))
+    trace_ids = set(rnd.sample(range(total), min(TRACE_SAMPLE[tier] * 2 // 3, total)))
+    trace_pool = []
+    swap_target = None
+    kinds = {}
     n_obs = 0
     with open(obs_path) as f:
-        for case, line in zip(cases, f):
+        for case, line in zip(gc.iter_cases(d["cases_path"]), f):
             obs = json.loads(line)
             n_obs += 1
             if "toolerror" in obs:
@@ -177,28 +179,36 @@ def run(rep, tier, seed, selftest):
             if obs["id"] != case["id"]:
                 raise common.ToolError("replay output out of order")
             compare_case(case, obs, k, fnd, stats, rep)
-            if nontrivial(case):
+            ck = gc.node_kinds(case["tree"])
+            for kk, vv in ck.items():
+                kinds[kk] = kinds.get(kk, 0) + vv
+            if sum(ck.values()) >= 4:
                 nontriv += 1
             if case["id"] in sample_ids:
                 samples.append({"source_tokens": gc.canon(case), "expected_tree": case["tree"], "delta_layout0": obs["d"][0], "alpha_layout0": obs["a"][0]})
-    if n_obs != len(cases):
-        raise common.ToolError("replay returned %d observations for %d cases" % (n_obs, len(cases)))
+            if case["id"] in trace_ids:
+                trace_pool.append(case)
+            if swap_target is None and selftest and case["focus"] in ("exprs", "ops") and "bin" in ck \
+                    and obs["d"][0].get("o") == "ok" and obs["d"][0]["tree"] == case["tree"]:
+                t = json.loads(json.dumps(case["tree"]))
+                if swap_first_bin(t):
+                    swap_target = (case, obs, t)
+    if n_obs != total:
+        raise common.ToolError("replay returned %d observations for %d cases" % (n_obs, total))
     log("[replay] %d modules x %d layouts through both parsers: %d second-generation trees equal to the specification's, "
-        "%d three-way equal, %d panics" % (len(cases), k, stats["delta_tree_equal"], stats["three_way_equal"], stats["delta_panics"]))
+        "%d three-way equal, %d panics" % (total, k, stats["delta_tree_equal"], stats["three_way_equal"], stats["delta_panics"]))
     # ---- 2. corpus: first- vs second-generation tree ----------------------------------------------------------
     corpus_records, corpus_samples = check_corpus(rep, fnd, stats, "C16")
     # ---- 3. impl -> spec: Trace_Grammar re-parses what the real lexer and parser reported ------------------
     sim_cases = gc.simulate(SIM[tier], seed, "C16")
     take = TRACE_SAMPLE[tier]
-    pool = list(cases)
-    rnd.shuffle(pool)
-    trace_cases = sim_cases[:take // 3] + pool[:max(0, take - min(len(sim_cases), take // 3))]
+    trace_cases = sim_cases[:take // 3] + trace_pool
     tc_path = os.path.join(common.WORK, "C16-trace-cases.ndjson")
     tr_path = os.path.join(common.WORK, "C16-trace-rec.ndjson")
     for i, c in enumerate(trace_cases):
         c["tid"] = i
     common.write_ndjson(tc_path, [{"id": c["tid"], "toks": c["toks"]} for c in trace_cases])
-    common.pvh(["record", tc_path, tr_path, 4, seed], exe_name=gc.EXE)
+    common.pvh(["record", tc_path, tr_path, 4, seed], exe_name=gc.EXE, env=gc.PVH_ENV)
     records = common.read_ndjson(tr_path)
     by_tid = {c["tid"]: c for c in trace_cases}
     sim_equal = 0
@@ -210,7 +220,8 @@ def run(rep, tier, seed, selftest):
             fnd.add("delta-panic", gc.panic_signature(r.get("panic")), example(c, r.get("layout"), r, None, "the second-generation parser panicked on a valid module"))
             stats["delta_panics"] += 1
         elif r["o"] == "rejected" and c["focus"] not in gc.UNCONSTRAINED:
-            fnd.add("delta-rejects-valid", "%s %s" % (r.get("codes"), gc.canon(c)), example(c, r.get("layout"), r, None, "a valid module is rejected"))
+            fnd.add("delta-rejects-valid", "%s %s" % (r.get("codes"), gc.rejection_shape(gc.canon(c)) or gc.canon(c)),
+                    example(c, r.get("layout"), r, None, "a valid module is rejected"))
         elif r["o"] == "ok":
             for issue in r.get("wf", []):
                 fnd.add("delta-xml", issue, example(c, r.get("layout"), {"wf": r["wf"]}, None, "the XML dump is not well formed"))
@@ -235,19 +246,16 @@ def run(rep, tier, seed, selftest):
     # ---- 4. self-tests of the binding -----------------------------------------------------------------------
     selftests = {}
     if selftest:
-        selftests = run_selftests(cases, obs_path, k, all_records, rep)
+        selftests = run_selftests(swap_target, k, all_records)
         log("[selftest] %s" % json.dumps(selftests))
         for name, ok in selftests.items():
             if not ok:
                 raise common.ToolError("self-test %s failed: the binding does not detect a corrupted observation" % name)
     fnd.report(rep, seed)
-    kinds = {}
-    for c in cases:
-        gc.node_kinds(c["tree"], kinds)
     coverage = {
         "states": d["states"],
         "transitions": d["transitions"],
-        "traces_validated_against_impl": len(cases) * k + len(accepted),
+        "traces_validated_against_impl": total * k + len(accepted),
         "samples": samples + [{"corpus": corpus_samples}],
         "evaluations": stats["evaluations"] + stats["corpus_both_accept"] + len(all_records),
         "distinct_nontrivial": nontriv,
@@ -261,7 +269,7 @@ def run(rep, tier, seed, selftest):
                 "larger modules from TLC simulation, a sample of the derived ones and the corpus files are lexed and parsed by the real code and the "
                 "recorded token stream is re-parsed by TLC along the recorded tree. Non-trivial = derived modules with at least 4 syntax nodes." % k,
         "exhaustive": True,
-        "modules_derived": len(cases),
+        "modules_derived": total,
         "layouts_per_module": k,
         "per_focus": d["per_focus"],
         "production_coverage": d["coverage"],
@@ -290,31 +298,17 @@ def run(rep, tier, seed, selftest):
         "adjacent string pieces denote one string (their bytes concatenated); locations and inferred types are ignored",
         "literal values are compared as values: integers from the `value` attribute of the dump vs. the value TLC computes from the digits (Wide.tla), strings by decoding the spelling shown in the dump",
         "precedence/associativity are not documented; the grammar's levels follow what src/alpha/parser.rs accepts (DESIGN.md section 5 C16) -- a module the first generation rejects is reported as MODEL-DRIFT, not as a violation",
-        "foci `loose` and `undoc` derive forms the documents do not show (last struct member without comma, |&x|, string ending in an escaped quote): rejection by generation 2 is accepted there, a panic or a different tree is reported",
+        "focus `undoc` derives a form the documents do not show but generation 1 accepts (|&x|): rejection by generation 2 is accepted there, a panic or a different tree is reported",
         "corpus: the specification side is absent for hand-written files; first- and second-generation trees are compared with each other and the second-generation recording is re-parsed by TLC",
         "the XML reader repairs what it reports (mismatched closing tag, element self-closed and closed again) so that the rest of the tree is still compared",
     ]
     return rep.finish("model_checking", coverage, assumptions)
 
 
-def run_selftests(cases, obs_path, k, records, rep):
+def run_selftests(target, k, records):
     """corrupt observations / recordings; every corruption must be detected"""
     out = {}
     # (a) operand swap in the expected tree of a module with a binary operator whose operands differ
-    target = None
-    with open(obs_path) as f:
-        for c, line in zip(cases, f):
-            if c["focus"] not in ("exprs", "ops"):
-                continue
-            s = json.dumps(c["tree"])
-            if '"k": "bin"' not in s:
-                continue
-            o = json.loads(line)
-            if o["d"][0].get("o") == "ok" and o["d"][0]["tree"] == c["tree"]:
-                t = json.loads(s)
-                if swap_first_bin(t):
-                    target = (c, o, t)
-                    break
     if target:
         c, o, t = target
         fake = dict(c)
@@ -323,6 +317,8 @@ def run_selftests(cases, obs_path, k, records, rep):
         st = {key: 0 for key in ("evaluations", "alpha_rejects", "delta_panics", "unconstrained_rejected", "delta_tree_equal", "three_way_equal")}
         compare_case(fake, o, k, f2, st, DummyRep())
         out["swapped_operands_detected"] = any(kind == "delta-tree" for kind, _ in f2.by_key)
+    else:
+        out["swapped_operands_detected"] = False
     # (b) a recording with two tokens exchanged / an operator changed must be rejected by Trace_Grammar
     good = [r for r in records if r.get("o") == "ok" and len(r["toks"]) >= 8][:1]
     if good:
